@@ -1,4 +1,5 @@
 import MV.Lemmas.Backoff
+import MV.Lemmas.Retry
 /-!
 # C18 — back-off delays stay within bounds; retry helpers call as often as documented
 
@@ -20,6 +21,24 @@ count (no bound), every draw `u = un/ud ∈ [0,1]`, and every argument on the do
                        exactly the interval the oracle checks the implementation against;
 * `C18_judge_accepts_model`, `C18_accept_sound` — the `Bool` judge run on the implementation's answers
                        accepts everything the model can answer and implies the clauses above.
+
+## the retry helpers (toolkit/retry.go)
+
+`MV.Model.Retry` transcribes the loops of `Retry` (= `RetryAsync`), `RetryByRule`, `RetryForever` and
+`ConditionalRetryByExponentialBackoff` (= `RetryByExponentialBackoff` with `cond = nil`) over a script of
+outcomes of arbitrary length.  `C18_retry_refines`: every loop equals its closed form in `MV.Spec.Retry`
+("stop at the first attempt at which a stop condition holds").  From it:
+
+* `C18_retry_count`        — `f` is invoked at most `count` / `maxRetries + 1` times, and never again
+                             after its first success;
+* `C18_retry_first_success`— a success within the limits ends the helper with `nil` after exactly that call;
+* `C18_retry_ignore`       — an error of the ignore list is returned unchanged, immediately;
+* `C18_retry_cond`         — a `false` interruption condition ends the helper before the next call;
+* `C18_retry_last_error`   — otherwise the error of the last invocation is returned (wrapped for the
+                             back-off variant, and only once `retry ≥ maxRetries`);
+* `C18_retry_sleeps_nonneg`— every slept duration of the back-off variant lies in `[0, maxDelay]`
+                             (never negative or wrapped around), those of `RetryByRule` are positive,
+                             those of `Retry`/`RetryForever` are the given interval.
 
 Outside the theorems (stated in conf/C18.json): IEEE *rounding* of `Pow`, `*`, `+` (the band is checked
 on the implementation with a relative tolerance of 2^-40).
@@ -212,5 +231,340 @@ example : standard 3 (-1) 200000000 3600000000000 (fin 0 1) = 1550000000 := by d
 
 /-- zero base delay and an overflowing power (`0 * +Inf = NaN`): still zero -/
 example : standard 2000 (-1) 0 3600000000000 (fin 1 3) = 0 := by decide
+
+/-! ## the retry helpers -/
+
+section RetryHelpers
+open MV.Model.Retry MV.Lemmas.Retry
+open MV.Spec.Retry (firstIdx firstOk resOf condStop)
+
+/-- every loop of `toolkit/retry.go` equals its closed form, for every script -/
+theorem C18_retry_refines :
+    (∀ count iv s, MV.Model.Retry.retry count iv s = MV.Spec.Retry.retry count iv s) ∧
+    (∀ iv s, MV.Model.Retry.retryForever iv s = MV.Spec.Retry.retryForever iv s) ∧
+    (∀ s rule, MV.Model.Retry.retryByRule s rule = MV.Spec.Retry.retryByRule s rule) ∧
+    (∀ s cond ig mr b m mn md rn rd draw,
+      condRetry s cond ig mr b m mn md rn rd draw =
+        MV.Spec.Retry.condRetry s cond ig mr (delayOf b m mn md rn rd draw)) :=
+  ⟨retry_eq_spec, retryForever_eq_spec, retryByRule_eq_spec,
+   fun s cond ig mr _ _ _ _ _ _ _ => condLoop_eq_spec s cond ig mr _⟩
+
+/-- the attempt at which the conditional back-off retry stops -/
+def stopAttempt (s : List Outcome) (cond : Option (List Bool)) (ig : List Nat) (mr : Int) : Nat :=
+  firstIdx (condStop s cond ig mr) s.length
+
+theorem stopAttempt_le_maxRetries (s : List Outcome) (cond : Option (List Bool)) (ig : List Nat) (mr : Int) :
+    stopAttempt s cond ig mr ≤ mr.toNat := by
+  unfold stopAttempt
+  by_contra h
+  have hlt : mr.toNat < firstIdx (condStop s cond ig mr) s.length := by omega
+  have := firstIdx_not _ _ _ hlt
+  unfold condStop at this
+  cases hc : condAt cond mr.toNat with
+  | false => rw [hc] at this; simp at this
+  | true =>
+    rw [hc] at this
+    cases ho : outcomeAt s mr.toNat with
+    | none => rw [ho] at this; simp at this
+    | some e =>
+      rw [ho] at this
+      simp at this
+
+theorem stopAttempt_le_firstOk (s : List Outcome) (cond : Option (List Bool)) (ig : List Nat) (mr : Int) :
+    stopAttempt s cond ig mr ≤ firstOk s := by
+  unfold stopAttempt
+  by_contra h
+  have hlt : firstOk s < firstIdx (condStop s cond ig mr) s.length := by omega
+  have := firstIdx_not _ _ _ hlt
+  rw [condStop_of_none s cond ig mr _ (firstOk_none s)] at this
+  exact absurd this (by decide)
+
+theorem condRetry_calls_le (s : List Outcome) (cond : Option (List Bool)) (ig : List Nat) (mr : Int)
+    (d : Nat → Int) : (MV.Spec.Retry.condRetry s cond ig mr d).calls ≤ stopAttempt s cond ig mr + 1 := by
+  unfold MV.Spec.Retry.condRetry stopAttempt
+  simp only []
+  split
+  · simp
+  · split
+    · simp
+    · split <;> simp
+
+/-- **invocation counts**: `Retry` calls `f` at most `count` times, the back-off variants at most
+    `maxRetries + 1` times, and no helper calls `f` again after its first success -/
+theorem C18_retry_count :
+    (∀ count iv s, (MV.Model.Retry.retry count iv s).calls ≤ count.toNat ∧
+        (MV.Model.Retry.retry count iv s).calls ≤ firstOk s + 1) ∧
+    (∀ iv s, (MV.Model.Retry.retryForever iv s).calls = firstOk s + 1) ∧
+    (∀ s rule, (MV.Model.Retry.retryByRule s rule).calls ≤ firstOk s + 1 ∧
+        (MV.Model.Retry.retryByRule s rule).aux ≤ (MV.Model.Retry.retryByRule s rule).calls) ∧
+    (∀ s cond ig mr b m mn md rn rd draw,
+      (condRetry s cond ig mr b m mn md rn rd draw).calls ≤ mr.toNat + 1 ∧
+      (condRetry s cond ig mr b m mn md rn rd draw).calls ≤ firstOk s + 1) := by
+  refine ⟨?_, ?_, ?_, ?_⟩
+  · intro count iv s
+    rw [retry_eq_spec]
+    unfold MV.Spec.Retry.retry
+    simp only []
+    split <;> simp <;> omega
+  · intro iv s
+    rw [retryForever_eq_spec]; rfl
+  · intro s rule
+    rw [retryByRule_eq_spec]
+    unfold MV.Spec.Retry.retryByRule
+    simp only []
+    have hle : firstIdx (ruleStop s rule) s.length ≤ firstOk s := by
+      by_contra h
+      have hlt : firstOk s < firstIdx (ruleStop s rule) s.length := by omega
+      have := firstIdx_not _ _ _ hlt
+      unfold ruleStop at this
+      rw [firstOk_none s] at this
+      simp at this
+    have e : (fun k => (outcomeAt s k).isNone || decide (rule.getD k 0 ≤ 0)) = ruleStop s rule := rfl
+    rw [e]
+    split <;> simp <;> omega
+  · intro s cond ig mr b m mn md rn rd draw
+    rw [C18_retry_refines.2.2.2]
+    have h1 := condRetry_calls_le s cond ig mr (delayOf b m mn md rn rd draw)
+    have h2 := stopAttempt_le_maxRetries s cond ig mr
+    have h3 := stopAttempt_le_firstOk s cond ig mr
+    omega
+
+/-- **first success**: a success within the limits ends the helper with `nil` right after that call -/
+theorem C18_retry_first_success :
+    (∀ count iv s, firstOk s < count.toNat →
+        MV.Model.Retry.retry count iv s = ⟨firstOk s + 1, 0, List.replicate (firstOk s) iv, .nil⟩) ∧
+    (∀ iv s, MV.Model.Retry.retryForever iv s = ⟨firstOk s + 1, 0, List.replicate (firstOk s) iv, .nil⟩) ∧
+    (∀ s rule, (∀ j, j < firstOk s → 0 < rule.getD j 0) →
+        (MV.Model.Retry.retryByRule s rule).calls = firstOk s + 1 ∧ (MV.Model.Retry.retryByRule s rule).res = .nil) ∧
+    (∀ s cond ig mr b m mn md rn rd draw,
+      (∀ j, j ≤ firstOk s → condAt cond j = true) →
+      (∀ j e, j < firstOk s → outcomeAt s j = some e → ignored ig e = false) →
+      (firstOk s : Int) ≤ mr →
+      (condRetry s cond ig mr b m mn md rn rd draw).calls = firstOk s + 1 ∧
+      (condRetry s cond ig mr b m mn md rn rd draw).res = .nil) := by
+  refine ⟨?_, ?_, ?_, ?_⟩
+  · intro count iv s h
+    rw [retry_eq_spec]; unfold MV.Spec.Retry.retry; simp only []; rw [if_pos h]
+  · intro iv s
+    rw [retryForever_eq_spec]; rfl
+  · intro s rule hpos
+    rw [retryByRule_eq_spec]
+    unfold MV.Spec.Retry.retryByRule
+    simp only []
+    have e : (fun k => (outcomeAt s k).isNone || decide (rule.getD k 0 ≤ 0)) = ruleStop s rule := rfl
+    rw [e]
+    have hidx : firstIdx (ruleStop s rule) s.length = firstOk s := by
+      apply firstIdx_eq_of _ _ _ (firstOk_le s)
+      · intro j hj
+        obtain ⟨e, he⟩ := firstOk_some s j hj
+        have := hpos j hj
+        rw [ruleStop_some s rule j e he]
+        exact decide_eq_false (by omega)
+      · intro _; unfold ruleStop; rw [firstOk_none s]; simp
+    rw [hidx, firstOk_none s]
+    simp
+  · intro s cond ig mr b m mn md rn rd draw hcond hign hmr
+    rw [C18_retry_refines.2.2.2]
+    unfold MV.Spec.Retry.condRetry
+    simp only []
+    have hidx : firstIdx (condStop s cond ig mr) s.length = firstOk s := by
+      apply firstIdx_eq_of _ _ _ (firstOk_le s)
+      · intro j hj
+        obtain ⟨e, he⟩ := firstOk_some s j hj
+        rw [condStop_some s cond ig mr j e he, hcond j (by omega), hign j e hj he]
+        have : ¬ ((j:Int) ≥ mr) := by omega
+        simp [this]
+      · intro _; exact condStop_of_none s cond ig mr _ (firstOk_none s)
+    rw [hidx, firstOk_none s, hcond (firstOk s) (Nat.le_refl _)]
+    simp
+
+/-- the closed form when the attempt `r` is known to be the first stopping one -/
+theorem condRetry_at (s : List Outcome) (cond : Option (List Bool)) (ig : List Nat) (mr : Int) (d : Nat → Int)
+    (r : Nat) (hgo : ∀ j, j < r → condStop s cond ig mr j = false) (hstop : condStop s cond ig mr r = true) :
+    MV.Spec.Retry.condRetry s cond ig mr d = condResult s cond ig r ((List.range r).map d) := by
+  have hr : r ≤ s.length := by
+    by_contra h
+    have := hgo s.length (by omega)
+    rw [condStop_of_none s cond ig mr _ (outcomeAt_length s _ (Nat.le_refl _))] at this
+    exact absurd this (by decide)
+  have hidx : firstIdx (condStop s cond ig mr) s.length = r :=
+    firstIdx_eq_of _ _ _ hr hgo (fun _ => hstop)
+  unfold MV.Spec.Retry.condRetry condResult
+  simp only []
+  rw [hidx]
+  rfl
+
+/-- **ignore list**: the first error that `errors.Is` one of the ignored errors is returned unchanged,
+    right after that call: no further invocation, no further sleep -/
+theorem C18_retry_ignore (s : List Outcome) (cond : Option (List Bool)) (ig : List Nat) (mr : Int)
+    (b m : Int) (mn md rn rd : Nat) (draw : Nat → FVal) (r : Nat) (e : Err)
+    (hgo : ∀ j, j < r → condStop s cond ig mr j = false)
+    (hc : condAt cond r = true) (ho : outcomeAt s r = some e) (hi : ignored ig e = true) :
+    condRetry s cond ig mr b m mn md rn rd draw =
+      ⟨r + 1, condCalls cond (r + 1), (List.range r).map (delayOf b m mn md rn rd draw), .err e⟩ := by
+  rw [C18_retry_refines.2.2.2, condRetry_at s cond ig mr _ r hgo (by rw [condStop_some s cond ig mr r e ho, hc, hi]; simp)]
+  unfold condResult
+  rw [hc, ho]
+  simp [hi]
+
+/-- **interruption**: when `cond()` answers `false` the helper returns `interrupted` without calling
+    `f` again -/
+theorem C18_retry_cond (s : List Outcome) (cond : Option (List Bool)) (ig : List Nat) (mr : Int)
+    (b m : Int) (mn md rn rd : Nat) (draw : Nat → FVal) (r : Nat)
+    (hgo : ∀ j, j < r → condStop s cond ig mr j = false) (hc : condAt cond r = false) :
+    condRetry s cond ig mr b m mn md rn rd draw =
+      ⟨r, condCalls cond (r + 1), (List.range r).map (delayOf b m mn md rn rd draw), .interrupted⟩ := by
+  rw [C18_retry_refines.2.2.2, condRetry_at s cond ig mr _ r hgo (by unfold condStop; rw [hc]; simp)]
+  unfold condResult
+  rw [if_pos hc]
+
+/-- **last error**: `Retry` without a success within `count > 0` attempts returns the error of its
+    last (the `count`-th) invocation; the back-off variant returns an error only as the outcome of its
+    last invocation — unchanged iff it is on the ignore list, else wrapped as "max retries reached"
+    and only when `maxRetries` retries have been used up -/
+theorem C18_retry_last_error :
+    (∀ count iv s, ¬ firstOk s < count.toNat → 0 < count.toNat →
+        (MV.Model.Retry.retry count iv s).calls = count.toNat ∧
+        ∃ e, outcomeAt s (count.toNat - 1) = some e ∧ (MV.Model.Retry.retry count iv s).res = .err e) ∧
+    (∀ s cond ig mr b m mn md rn rd draw e,
+      (condRetry s cond ig mr b m mn md rn rd draw).res = .maxRetries e →
+        outcomeAt s ((condRetry s cond ig mr b m mn md rn rd draw).calls - 1) = some e ∧
+        ignored ig e = false ∧
+        (((condRetry s cond ig mr b m mn md rn rd draw).calls - 1 : Nat) : Int) ≥ mr) ∧
+    (∀ s cond ig mr b m mn md rn rd draw e,
+      (condRetry s cond ig mr b m mn md rn rd draw).res = .err e →
+        outcomeAt s ((condRetry s cond ig mr b m mn md rn rd draw).calls - 1) = some e ∧ ignored ig e = true) := by
+  refine ⟨?_, ?_, ?_⟩
+  · intro count iv s h hpos
+    rw [retry_eq_spec]; unfold MV.Spec.Retry.retry; simp only []; rw [if_neg h]
+    obtain ⟨e, he⟩ := firstOk_some s (count.toNat - 1) (by omega)
+    refine ⟨rfl, e, he, ?_⟩
+    have : ¬ (count.toNat = 0) := by omega
+    simp [this, he, resOf]
+  · intro s cond ig mr b m mn md rn rd draw e
+    rw [C18_retry_refines.2.2.2]
+    have hstop := stop_at_first s (condStop s cond ig mr) (condStop_of_none s cond ig mr)
+    unfold MV.Spec.Retry.condRetry
+    simp only []
+    generalize firstIdx (condStop s cond ig mr) s.length = r at hstop
+    split
+    · intro h; simp at h
+    · rename_i hc
+      have hct : condAt cond r = true := by simpa using hc
+      cases ho : outcomeAt s r with
+      | none => intro h; simp at h
+      | some e' =>
+        simp only []
+        by_cases hi : ignored ig e' = true
+        · rw [if_pos hi]; intro h; simp at h
+        · rw [if_neg hi]
+          intro h
+          have he : e' = e := by simpa using h
+          subst he
+          rw [condStop_some s cond ig mr r e' ho, hct] at hstop
+          have : ignored ig e' = false := by simpa using hi
+          rw [this] at hstop
+          have hmr : (r:Int) ≥ mr := by simpa using hstop
+          simp [ho, this, hmr]
+  · intro s cond ig mr b m mn md rn rd draw e
+    rw [C18_retry_refines.2.2.2]
+    unfold MV.Spec.Retry.condRetry
+    simp only []
+    generalize firstIdx (condStop s cond ig mr) s.length = r
+    split
+    · intro h; simp at h
+    · cases ho : outcomeAt s r with
+      | none => intro h; simp at h
+      | some e' =>
+        simp only []
+        by_cases hi : ignored ig e' = true
+        · rw [if_pos hi]
+          intro h
+          have he : e' = e := by simpa using h
+          subst he
+          simp [ho, hi]
+        · rw [if_neg hi]; intro h; simp at h
+
+/-- the jitter draws are values of `rand.Float64()`: rationals in `[0,1]` -/
+def DrawOK (draw : Nat → FVal) : Prop := ∀ k, ∃ un ud : Nat, draw k = fin un ud ∧ 0 < ud ∧ un ≤ ud
+
+/-- **sleeps**: the back-off variant never sleeps a negative or wrapped-around time — every argument of
+    `time.Sleep` lies in `[0, maxDelay]`, for every number of retries; `RetryByRule` only sleeps positive
+    durations; `Retry` / `RetryForever` sleep exactly the given interval -/
+theorem C18_retry_sleeps_nonneg :
+    (∀ s cond ig mr b m mn md rn rd draw, Dom b m mn md rn rd → DrawOK draw →
+        ∀ d ∈ (condRetry s cond ig mr b m mn md rn rd draw).sleeps, 0 ≤ d ∧ d ≤ m) ∧
+    (∀ s rule, ∀ d ∈ (MV.Model.Retry.retryByRule s rule).sleeps, 0 < d) ∧
+    (∀ count iv s, ∀ d ∈ (MV.Model.Retry.retry count iv s).sleeps, d = iv) ∧
+    (∀ iv s, ∀ d ∈ (MV.Model.Retry.retryForever iv s).sleeps, d = iv) := by
+  refine ⟨?_, ?_, ?_, ?_⟩
+  · intro s cond ig mr b m mn md rn rd draw D hdraw d hd
+    rw [C18_retry_refines.2.2.2] at hd
+    have hmem : ∃ k, d = delayOf b m mn md rn rd draw k := by
+      unfold MV.Spec.Retry.condRetry at hd
+      simp only [] at hd
+      have key : d ∈ (List.range (firstIdx (condStop s cond ig mr) s.length)).map (delayOf b m mn md rn rd draw) := by
+        split at hd
+        · exact hd
+        · split at hd
+          · exact hd
+          · split at hd <;> exact hd
+      obtain ⟨k, _, hk⟩ := List.mem_map.mp key
+      exact ⟨k, hk.symm⟩
+    obtain ⟨k, rfl⟩ := hmem
+    obtain ⟨un, ud, hu, hud, hle⟩ := hdraw k
+    unfold delayOf
+    rw [hu]
+    exact delay_range k b m mn md rn rd un ud D hud hle
+  · intro s rule d hd
+    rw [retryByRule_eq_spec] at hd
+    unfold MV.Spec.Retry.retryByRule at hd
+    simp only [] at hd
+    have e : (fun k => (outcomeAt s k).isNone || decide (rule.getD k 0 ≤ 0)) = ruleStop s rule := rfl
+    rw [e] at hd
+    have key : d ∈ (List.range (firstIdx (ruleStop s rule) s.length)).map (fun k => rule.getD k 0) := by
+      split at hd <;> exact hd
+    obtain ⟨k, hk, rfl⟩ := List.mem_map.mp key
+    rw [List.mem_range] at hk
+    have := firstIdx_not _ _ k hk
+    cases ho : outcomeAt s k with
+    | none => unfold ruleStop at this; rw [ho] at this; simp at this
+    | some e' =>
+      rw [ruleStop_some s rule k e' ho] at this
+      have h2 : ¬ (rule.getD k 0 ≤ 0) := of_decide_eq_false this
+      omega
+  · intro count iv s d hd
+    rw [retry_eq_spec] at hd
+    unfold MV.Spec.Retry.retry at hd
+    simp only [] at hd
+    split at hd <;> exact (List.mem_replicate.mp hd).2
+  · intro iv s d hd
+    rw [retryForever_eq_spec] at hd
+    exact (List.mem_replicate.mp hd).2
+
+/-! ### non-vacuity -/
+
+/-- three failures then success, `count = 5`: four calls, three sleeps, `nil` -/
+example : MV.Model.Retry.retry 5 7 [some [1], some [2], some [1], none] = ⟨4, 0, [7, 7, 7], .nil⟩ := by decide
+
+/-- `count = 2`: the error of the second call -/
+example : MV.Model.Retry.retry 2 7 [some [1], some [2], some [1], none] = ⟨2, 0, [7, 7], .err [2]⟩ := by decide
+
+/-- ignored error `3` (wrapped inside `4`) after one retry -/
+example : (condLoop [some [1], some [4, 3], some [1]] none [3] 5 (fun _ => 9) 4 0 []) = ⟨2, 0, [9], .err [4, 3]⟩ := by
+  decide
+
+/-- `maxRetries = 1`: two calls, then "max retries reached" -/
+example : (condLoop [some [1], some [2], some [1]] none [] 1 (fun _ => 9) 4 0 []) = ⟨2, 0, [9], .maxRetries [2]⟩ := by
+  decide
+
+/-- interruption before the second call -/
+example : (condLoop [some [1], some [2]] (some [true, false]) [] 5 (fun _ => 9) 3 0 []) = ⟨1, 2, [9], .interrupted⟩ := by
+  decide
+
+/-- the draws hypothesis is satisfiable -/
+example : DrawOK (fun _ => fin 1 3) := fun _ => ⟨1, 3, rfl, by decide, by decide⟩
+
+end RetryHelpers
 
 end MV.Props.C18
